@@ -11,7 +11,7 @@ From PV Require Import Base.Num Model.Dynamics Proofs.Dynamics.
    forward / state_transition / observation / property reads, reset(t), systime = t, set_refpoint):
    either nothing assigned the time and it is the start time plus the number of calls, or it is the
    value of the last assignment plus the number of calls made since.  (assigns: reset, systime
-   assignment, and LTV.set_refpoint(t).) *)
+   assignment, and LTV.set_refpoint(t) with t given.) *)
 Theorem C15_time_after_ops : forall (k : kind) (t0 : Z) (ops : list op),
   (no_assign k ops /\ run_time k t0 ops = (t0 + count_calls ops)%Z) \/
   (exists pre a v post, ops = pre ++ a :: post /\ assigns k a = Some v /\ no_assign k post /\
@@ -26,10 +26,15 @@ Theorem C15_nls_time_is_counter : forall (fs gs : list (fexpr (F:=R))) (ops : li
   n_t (nls_run fs gs st ops) = run_time KNLS (n_t st) (map nop_erase ops).
 Proof. exact nls_run_time. Qed.
 
-(* LTV.set_refpoint() with the documented default t=None ("the most recent timestamp is taken")
-   raises instead of keeping the time *)
-Theorem C15_ltv_setref_default_refuted : exists t : Z, step_time KLTV t (SetRef None) = None.
-Proof. exists 0%Z. exact (ltv_setref_default_raises 0%Z). Qed.
+(* no modelled operation raises; in particular LTV.set_refpoint() with the documented default
+   t=None ("the most recent timestamp is taken") keeps the time *)
+Theorem C15_ops_do_not_raise : forall (k : kind) (t : Z) (o : op), exists t', step_time k t o = Some t'.
+Proof. exact step_time_total. Qed.
+Theorem C15_ltv_setref_default_keeps_time : forall t : Z, step_time KLTV t (SetRef None) = Some t.
+Proof. exact ltv_setref_default_keeps_time. Qed.
+(* history (before /repo 6b6eb73): it raised *)
+Theorem C15_ltv_setref_default_old_refuted : exists t : Z, step_time_old KLTV t (SetRef None) = None.
+Proof. exists 0%Z. exact (ltv_setref_default_old_raises 0%Z). Qed.
 
 (* ---------------------------------------------------------------- LTI / LTV equations
    every component of the next state / observation, any dimensions, with or without c1, c2 *)
@@ -113,42 +118,35 @@ Example C15_second_order_example : forall x s : R,
 Proof. exact second_order_example. Qed.
 
 (* ---------------------------------------------------------------- the NLS object and its bookkeeping
-   after set_refpoint(x, u, t) with an explicit t (state / input given or taken from the last call),
-   for EVERY later history without another set_refpoint, reading A, B, C, D, c1, c2 gives the
-   linearisation at (x, u, t): Jacobians of f and g there, c1, c2 from the values there *)
-Theorem C15_nls_read_after_setref : forall (fs gs : list (fexpr (F:=R))) (st : nst (F:=R)) ox ou x u (tr : R) ops,
+   after set_refpoint(x, u, t) - state / input given or taken from the last call, t given or, by
+   default, the time at that moment - for EVERY later history without another set_refpoint (calls,
+   resets, time assignments, direct calls, reads), reading A, B, C, D, c1, c2 gives the linearisation
+   at (x, u, t): Jacobians of f and g there, c1, c2 from the values there *)
+Theorem C15_nls_read_after_setref : forall (fs gs : list (fexpr (F:=R))) (st : nst (F:=R)) ox ou (ot : option R) x u ops,
   ref_arg ox (option_map fst (n_last st)) = Some x ->
   ref_arg ou (option_map snd (n_last st)) = Some u ->
   no_setref ops ->
-  let st2 := nls_run fs gs (nls_step' fs gs st (NSetRef ox ou (Some tr))) ops in
-  nls_step fs gs st2 NRead = Some (st2, nls_lin_l fs gs x u tr).
+  let st2 := nls_run fs gs (nls_step' fs gs st (NSetRef ox ou ot)) ops in
+  nls_step fs gs st2 NRead = Some (st2, nls_lin_l fs gs x u (ref_time st ot)).
 Proof. exact nls_read_fixed. Qed.
-(* with the default t=None the same holds as long as the history leaves the time where it was ... *)
-Theorem C15_nls_read_default_t_partial : forall (fs gs : list (fexpr (F:=R))) (st : nst (F:=R)) ox ou x u ops,
-  ref_arg ox (option_map fst (n_last st)) = Some x ->
-  ref_arg ou (option_map snd (n_last st)) = Some u ->
-  no_setref ops -> run_time KNLS (n_t st) (map nop_erase ops) = n_t st ->
-  let st2 := nls_run fs gs (nls_step' fs gs st (NSetRef ox ou None)) ops in
-  nls_step fs gs st2 NRead = Some (st2, nls_lin_l fs gs x u (IZR (n_t st))).
-Proof. exact nls_read_alias_same_time. Qed.
-(* ... but not in general: `_ref_t` is the live time buffer, so a later call moves the point at which
-   the Jacobians are taken while c1, c2 still use the old f, g values.
-   Witness: f = t * x0, set_refpoint([1],[0]) at time 1, one call, A reads [[2]], Jacobian is [[1]]. *)
-Theorem C15_nls_default_t_refuted :
+(* history (before /repo 6b6eb73): with t=None `_ref_t` was the live time buffer, so a later call moved
+   the point at which the Jacobians were taken while c1, c2 still used the old f, g values.
+   Witness: f = t * x0, set_refpoint([1],[0]) at time 1, one call, A read [[2]], Jacobian is [[1]]. *)
+Theorem C15_nls_default_t_old_refuted :
   exists (fs gs : list (fexpr (F:=R))) (st : nst (F:=R)) (x u : list R) (ops : list (nop (F:=R))),
     no_setref ops /\
-    let st2 := nls_run fs gs (nls_step' fs gs st (NSetRef (Some x) (Some u) None)) ops in
-    exists out, nls_step fs gs st2 NRead = Some (st2, out) /\
+    let st2 := nls_run_old fs gs (nls_step'_old fs gs st (NSetRef (Some x) (Some u) None)) ops in
+    exists out, nls_step_old fs gs st2 NRead = Some (st2, out) /\
                 out <> nls_lin_l fs gs x u (IZR (n_t st)).
-Proof. exact nls_default_t_refuted. Qed.
+Proof. exact nls_default_t_old_refuted. Qed.
 
 Print Assumptions C15_time_after_ops. Print Assumptions C15_ltv_time_is_counter.
-Print Assumptions C15_nls_time_is_counter. Print Assumptions C15_ltv_setref_default_refuted.
+Print Assumptions C15_nls_time_is_counter. Print Assumptions C15_ops_do_not_raise.
+Print Assumptions C15_ltv_setref_default_keeps_time. Print Assumptions C15_ltv_setref_default_old_refuted.
 Print Assumptions C15_lti_equations. Print Assumptions C15_ltv_equations. Print Assumptions C15_ltv_calls.
 Print Assumptions C15_bvmv_bilinear. Print Assumptions C15_bvv_outer.
 Print Assumptions C15_deriv_correct_x. Print Assumptions C15_deriv_correct_x_at.
 Print Assumptions C15_deriv_correct_u. Print Assumptions C15_deriv_along_line.
 Print Assumptions C15_nls_affine_reproduces. Print Assumptions C15_nls_second_order.
 Print Assumptions C15_nls_second_order_exists. Print Assumptions C15_second_order_example.
-Print Assumptions C15_nls_read_after_setref. Print Assumptions C15_nls_read_default_t_partial.
-Print Assumptions C15_nls_default_t_refuted.
+Print Assumptions C15_nls_read_after_setref. Print Assumptions C15_nls_default_t_old_refuted.
